@@ -29,13 +29,16 @@ WP_RULES = {0: "FSS", 1: "SSP"}
 
 
 def budget(tier):
-    return 5000 if tier == "quick" else 1500000
+    return 8000 if tier == "quick" else 1500000
 
 
 def gen(rng, tier):
     focus = {"task_rules": True, "contention": rng.choice(["high", "mid", "mid", "low"])}
     if rng.random() < 0.6:
         focus.update(comps=True, facilities=True, mainwp=True)
+    if rng.random() < 0.25:
+        # workplaces numbered like the teams (IDs are unique per kind only), facility-needing tasks competing for workers
+        focus.update(same_group_ids=True, comps=True, facilities=True, contention="high")
     hsv_focus = rng.random() < 0.15
     if hsv_focus:
         focus.update(solo=True, contention="low", zero_skill=False, fix=False)
